@@ -565,6 +565,7 @@ func c20Walkers(c *Ctx, m map[string]interface{}, fn, key, path string, flag boo
 	}
 	mv := mxj.Map(m)
 	var w, core string
+	var wres []interface{}
 	before := dump(m)
 	st, pan := protect(func() {
 		switch fn {
@@ -583,7 +584,8 @@ func c20Walkers(c *Ctx, m map[string]interface{}, fn, key, path string, flag boo
 			w = fmt.Sprintf("%d|member=%v", segs(p), member)
 			core = fmt.Sprintf("%d|member=%v", segs(mv.PathForKeyShortest(key)), true)
 		case "x2jw.ValuesFromKeyPath":
-			w = rSet(x2jw.ValuesFromKeyPath(m, path, flag), nil)
+			wres = x2jw.ValuesFromKeyPath(m, path, flag)
+			w = rSet(wres, nil)
 			core = rSet(refNoAttr(m, strings.Split(path, "."), flag), nil)
 			if flag && !hasListInList(m) {
 				// with attributes requested the walker is ValuesForPath itself
@@ -593,7 +595,8 @@ func c20Walkers(c *Ctx, m map[string]interface{}, fn, key, path string, flag boo
 				}
 			}
 		case "x2jw.ValuesAtKeyPath":
-			w = rSet(x2jw.ValuesAtKeyPath(m, path, flag), nil)
+			wres = x2jw.ValuesAtKeyPath(m, path, flag)
+			w = rSet(wres, nil)
 			steps := strings.Split(path, ".")
 			var parents []interface{}
 			if len(steps) > 1 {
@@ -627,6 +630,10 @@ func c20Walkers(c *Ctx, m map[string]interface{}, fn, key, path string, flag boo
 		return
 	}
 	c.Outcome(fn + "|" + w)
+	// like Map.ValuesForPath, the walkers hand out a slice of their own, not a list of the Map
+	if !c.NoAlias(fn, wres, m, "walker", cas, choices) {
+		return true
+	}
 	if w != core {
 		c.Violate(fn, "agrees-with-core", "walker", cas, choices, fmt.Sprintf("%s map=%s key=%q path=%q getAttrs=%v\n wrapper: %s\n core   : %s", fn, jsonOf(m), key, path, flag, short(w, 600), short(core, 600)))
 	}
